@@ -440,6 +440,7 @@ def getitem_small_scope(P, R, ga):
         total += 1
         ev = veceval.VecEval(P, f, {ip: list(item) if isinstance(item, list) else item}, n_)
         ev.inline_take = True
+        ev.scale_thresholds = True
         try:
             ev.block(f.node.body)
             got = 'no return'
@@ -488,6 +489,7 @@ def take_small_scope(P, R, ga):
                 for p_, v_ in zip(f.params[2:], (False, None)):
                     env[p_] = v_
                 ev = veceval.VecEval(P, f, env, n_)
+                ev.scale_thresholds = True      # size thresholds of fast paths (module constants that are only compared) are scaled into the scope
                 try:
                     ev.block(f.node.body)
                     got = 'no return'
